@@ -155,6 +155,8 @@ func VerifScheduled() {
 				vrt.Assert("C15.nullify-mint-leaves-zero", got == 0)
 			} else if tk == fat2.PTickerEUR {
 				vrt.Assert("C15.nullify-mint-keeps-unlisted", got == unlisted)
+				// read as C04: the one-time burn destroys what remains of the minted supply and nothing else
+				vrt.Assert("C04.scheduled-burn-destroys-only-the-minted-remainder", got == unlisted)
 			}
 		}
 		vrt.Assert("C04.nullify-bystander-untouched", uint64(vrtBalance(tx, bystander, fat2.PTickerPEG)) == byPre)
